@@ -88,6 +88,11 @@ func c20Gen(t *rapid.T) c20Case {
 	return c
 }
 
+// c20StepName: names a project would use (dots, dashes, capitals), not in alphabetical order.
+func c20StepName(c c20Case, i int) string {
+	return []string{"step0", "build.v2", "Release-1.0.x"}[(i+c.Arg)%3]
+}
+
 type cliResult struct {
 	exit   int
 	stdout string
@@ -238,7 +243,7 @@ func c20Run(c c20Case, r *hx.Rec) error {
 	var modes []string
 	prev := ""
 	for i, st := range c.Steps {
-		name := fmt.Sprintf("step%d", i)
+		name := c20StepName(c, i)
 		k := hx.PoolKey(st.Key)
 		priv, _ := e.keyFiles(st.Key)
 		common := []string{"-n", name, "-k", priv, "-d", metaDir}
@@ -476,7 +481,7 @@ func c20Run(c c20Case, r *hx.Rec) error {
 	linkDir := metaDir
 	verifyKeys := strings.Join(pubs, ",")
 	tampered := c.Tamper != ""
-	victim := fmt.Sprintf("step%d", c.Arg%len(c.Steps))
+	victim := c20StepName(c, c.Arg%len(c.Steps))
 	victimKey := hx.PoolKey(c.Steps[c.Arg%len(c.Steps)].Key)
 	victimFile := filepath.Join(linkDir, hx.LinkFileName(victim, victimKey.KeyID))
 	products := sortedKeysHash(lastLink.Products)
